@@ -1,7 +1,231 @@
-//! Lane `framing` (stub).
-use crate::out::Out;
+//! Lane `framing` (C06): the frame decoder fed the same byte stream under different segmentations.
+use crate::fmtx::*;
+use crate::gen::*;
+use crate::lanes::ber::{real_encode, spec_enc};
+use crate::lanes::hostile::ctrls_text_real;
+use crate::out::{guarded, Out};
 use crate::rng::Rng;
+use bytes::BytesMut;
+use lber::structure::StructureTag;
+use lber::structures::Tag;
 
-pub fn run(_thorough: bool, _rng: Rng, out: Out) {
-    out.finish("stub lane: nothing generated yet");
+/// what `FramedRead` does with successive reads: append, decode until `None`; stop at an error
+pub fn feed_real(chunks: &[&[u8]]) -> (Vec<String>, usize, bool) {
+    let mut buf = BytesMut::new();
+    let mut frames = vec![];
+    let mut err = false;
+    for c in chunks {
+        if err {
+            break;
+        }
+        buf.extend_from_slice(c);
+        loop {
+            match ldap3::verif::verif_decode(&mut buf) {
+                Ok(Some((id, (tag, ctrls)))) => {
+                    let t = match tag {
+                        Tag::StructureTag(t) => tlv(&t),
+                        _ => String::from("(non-structure)"),
+                    };
+                    frames.push(format!("{}:{}:{}", id, t, ctrls_text_real(&ctrls)));
+                }
+                Ok(None) => break,
+                Err(_) => {
+                    err = true;
+                    break;
+                }
+            }
+        }
+    }
+    (frames, if err { 0 } else { buf.len() }, err)
+}
+
+fn show(r: &(Vec<String>, usize, bool)) -> String {
+    format!("frames=[{}] buf={} err={}", r.0.join(";"), r.1, if r.2 { 1 } else { 0 })
+}
+
+fn split_at<'a>(s: &'a [u8], cuts: &[usize]) -> Vec<&'a [u8]> {
+    let mut v = vec![];
+    let mut p = 0;
+    for &c in cuts {
+        v.push(&s[p..c]);
+        p = c;
+    }
+    v.push(&s[p..]);
+    v
+}
+
+fn expected_frame(m: &StructureTag) -> String {
+    // envelope(id, op, ctls) as built by gen.rs: [INTEGER id, op, optional [0] controls]
+    if let lber::structure::PL::C(ks) = &m.payload {
+        let idb = match &ks[0].payload { lber::structure::PL::P(b) => b.clone(), _ => vec![] };
+        let mut id: i64 = if idb[0] & 0x80 != 0 { -1 } else { 0 };
+        for b in idb {
+            id = (id << 8) | b as i64;
+        }
+        let ctl = if ks.len() > 2 {
+            if let lber::structure::PL::C(cs) = &ks[2].payload {
+                let parts: Vec<String> = cs
+                    .iter()
+                    .map(|c| {
+                        if let lber::structure::PL::C(f) = &c.payload {
+                            let oid = match &f[0].payload { lber::structure::PL::P(b) => b.clone(), _ => vec![] };
+                            let mut crit = false;
+                            let mut val: Option<Vec<u8>> = None;
+                            for x in &f[1..] {
+                                if x.id == 1 {
+                                    if let lber::structure::PL::P(b) = &x.payload { crit = b[0] != 0; }
+                                } else if let lber::structure::PL::P(b) = &x.payload {
+                                    val = Some(b.clone());
+                                }
+                            }
+                            format!("{}:{}:{}:{}", hex(&oid), if crit { 1 } else { 0 }, match val { Some(v) => hex(&v), None => String::from("none") }, known_name(&oid))
+                        } else {
+                            String::from("?")
+                        }
+                    })
+                    .collect();
+                format!("[{}]", parts.join(","))
+            } else {
+                String::from("[]")
+            }
+        } else {
+            String::from("[]")
+        };
+        return format!("{}:{}:{}", id, tlv(&ks[1]), ctl);
+    }
+    String::from("?")
+}
+
+fn check_stream(out: &mut Out, rng: &mut Rng, msgs: &[StructureTag], encs: &[Vec<u8>], thorough: bool, label: &str) {
+    let stream: Vec<u8> = encs.concat();
+    let expected: Vec<String> = msgs.iter().map(expected_frame).collect();
+    let n = stream.len();
+    let mut cutsets: Vec<Vec<usize>> = vec![vec![], (1..n).collect()];
+    if n >= 2 && n <= if thorough { 15 } else { 12 } {
+        // all 2^(n-1) partitions
+        for mask in 0..(1u32 << (n - 1)) {
+            cutsets.push((1..n).filter(|i| mask & (1 << (i - 1)) != 0).collect());
+        }
+        out.stat("streams.all-partitions");
+    } else {
+        for i in 1..n {
+            if n <= 4000 || i % 97 == 0 || encs.iter().scan(0, |a, e| { *a += e.len(); Some(*a) }).any(|b| (b as i64 - i as i64).abs() <= 2) {
+                cutsets.push(vec![i]);
+            }
+        }
+        let pairs = if thorough { 3000 } else { 150 };
+        if n <= 300 {
+            for _ in 0..pairs {
+                let a = rng.range(1, n as u64 - 1) as usize;
+                let b = rng.range(1, n as u64 - 1) as usize;
+                if a != b {
+                    cutsets.push(vec![a.min(b), a.max(b)]);
+                }
+            }
+        }
+        for _ in 0..10 {
+            let k = rng.range(1, 8);
+            let mut cs: Vec<usize> = (0..k).map(|_| rng.range(1, n.max(2) as u64 - 1) as usize).collect();
+            cs.sort_unstable();
+            cs.dedup();
+            cutsets.push(cs);
+        }
+    }
+    let mut mlines = 0;
+    for cuts in cutsets {
+        let chunks = split_at(&stream, &cuts);
+        let st2 = stream.clone();
+        let cuts2 = cuts.clone();
+        let got = match guarded(move || feed_real(&split_at(&st2, &cuts2))) {
+            Ok(g) => g,
+            Err(_) => (vec![String::from("panic")], 0, true),
+        };
+        let canon = format!("{} {:?}", hex(&stream[..n.min(40)]), cuts);
+        out.case(&canon, !cuts.is_empty());
+        let ok = got.0 == expected && got.1 == 0 && !got.2;
+        out.r(&format!("framing.chunking-independent {} len={} cuts={:?}", label, n, if cuts.len() > 8 { cuts[..8].to_vec() } else { cuts.clone() }), ok,
+              &format!("stream {} got {} frames buf={} err={}", hex(&stream[..n.min(60)]), got.0.len(), got.1, got.2));
+        if n <= 600 && mlines < 40 {
+            mlines += 1;
+            let req = format!("frame.feed {}", chunks.iter().map(|c| hex(c)).collect::<Vec<_>>().join(" "));
+            out.m(&req, &show(&got));
+        }
+    }
+    // truncated stream: exactly the complete messages, the rest stays buffered
+    for _ in 0..4 {
+        let k = rng.below(n as u64 + 1) as usize;
+        let got = feed_real(&[&stream[..k]]);
+        let mut end = 0;
+        let mut want = vec![];
+        for (e, x) in encs.iter().zip(expected.iter()) {
+            if end + e.len() <= k {
+                end += e.len();
+                want.push(x.clone());
+            } else {
+                break;
+            }
+        }
+        out.r(&format!("framing.exactly-complete-ones {} len={} cut={}", label, n, k), got.0 == want && got.1 == k - end && !got.2, &format!("got {} frames, buf {}", got.0.len(), got.1));
+        if n <= 600 {
+            out.m(&format!("frame.feed {}", hex(&stream[..k])), &show(&got));
+        }
+    }
+}
+
+pub fn run(thorough: bool, mut rng: Rng, mut out: Out) {
+    // single messages: every proper prefix is "need more" and leaves the buffer untouched
+    let nsingle = if thorough { 3000 } else { 300 };
+    for _ in 0..nsingle {
+        let m = gen_any_msg(&mut rng);
+        let e = if rng.chance(1, 2) { real_encode(&m) } else { spec_enc(&m, &mut rng, true) };
+        out.case(&hex(&e), true);
+        let mut bad = None;
+        for k in 0..e.len() {
+            let mut buf = BytesMut::from(&e[..k]);
+            match ldap3::verif::verif_decode(&mut buf) {
+                Ok(None) if buf.len() == k => {}
+                _ => {
+                    bad = Some(k);
+                    break;
+                }
+            }
+        }
+        out.stat_n("prefixes", e.len() as u64);
+        out.r(&format!("framing.prefix-needs-more {}", hex(&e[..e.len().min(80)])), bad.is_none(), &format!("prefix of length {:?} of {}", bad, hex(&e)));
+        if e.len() < 300 {
+            let k = rng.below(e.len() as u64) as usize;
+            out.m(&format!("env.dec {}", hex(&e[..k])), "needmore");
+        }
+    }
+    // tiny streams: exhaustive partitions
+    let ntiny = if thorough { 60 } else { 12 };
+    for _ in 0..ntiny {
+        // the smallest real messages: DelResponse-like results with empty strings (14 bytes), unbind-like
+        let m = envelope(rng.range(1, 100) as i64, prim(1, *rng.pick(&[2u64, 10, 11]), rng.bytes_below(4)), &None);
+        let e = real_encode(&m);
+        check_stream(&mut out, &mut rng, &[m], &[e], thorough, "tiny");
+    }
+    // sequences of 1..6 messages
+    let nseq = if thorough { 800 } else { 60 };
+    for _ in 0..nseq {
+        let k = rng.range(1, 6) as usize;
+        let msgs: Vec<StructureTag> = (0..k).map(|_| gen_any_msg(&mut rng)).collect();
+        let encs: Vec<Vec<u8>> = msgs.iter().map(|m| if rng.chance(2, 3) { real_encode(m) } else { spec_enc(m, &mut rng, true) }).collect();
+        out.stat(&format!("seq.len={}", k));
+        check_stream(&mut out, &mut rng, &msgs, &encs, thorough, "seq");
+    }
+    // big messages: around the 8 KiB initial read buffer of Framed and up to 70 KiB (1.1 MiB in thorough)
+    let mut sizes = vec![8000usize, 8192, 8193, 20000, 70000];
+    if thorough {
+        sizes.push(1_100_000);
+    }
+    for sz in sizes {
+        let big = envelope(7, cons(1, 4, vec![prim(0, 4, b"cn=big".to_vec()), cons(0, 16, vec![cons(0, 16, vec![prim(0, 4, b"jpegPhoto".to_vec()), cons(0, 17, vec![prim(0, 4, vec![0xab; sz])])])])]), &None);
+        let small = resp_msg(&gen_resp(&mut rng));
+        let msgs = vec![small.clone(), big, small];
+        let encs: Vec<Vec<u8>> = msgs.iter().map(real_encode).collect();
+        out.stat("big.streams");
+        check_stream(&mut out, &mut rng, &msgs, &encs, thorough, "big");
+    }
+    out.finish("streams of 1..6 generated LDAP messages (all response kinds, minimal and non-minimal length forms, sizes 7 B .. 70 KiB, 1.1 MiB in thorough) cut into read chunks: all 2^(n-1) partitions for streams <= 12 (15 thorough) bytes, every single cut, random pairs and k-cuts, one byte at a time, all at once; every proper prefix of every single message; non-trivial = at least one cut; distinct by FNV of (stream prefix, cuts)");
 }
